@@ -82,7 +82,7 @@ class HttpDispatchWorld(World):
         self.S = S
         self.failed = False  # the dispatched call failed (user code raised / result unusable / cap overshoot)
         self.dispatched = False
-        self.pre_dispatch_server_failure = False  # external fetch / token sealing failed: not in the table, must not be a 5xx
+        self.untabled_failure = False  # external fetch / token sealing failed: not in the table, must not be a 5xx
         self.read_outcome: str | None = None
         self.request_schema = SObj(None, kind="Schema", tag="request-params")
         self.info: Any = None
@@ -175,7 +175,13 @@ class HttpDispatchWorld(World):
         # falcon: req.content_type is the header value, None when absent (an absent header ends in the same branch as "")
         ct = S.str("content_type")
         self.ct_wrong = Not(eq(ct, ARROW))
-        self.lazy("Req", "content_type", "content_type_present", lambda present: ct if present else None, [True, False])
+
+        def header(present: bool) -> Any:
+            if not present:
+                self.ct_wrong = True
+            return ct if present else None
+
+        self.lazy("Req", "content_type", "content_type_present", header, [True, False])
         ctx = SObj(None, kind="ReqContext")
         req = SObj(None, kind="Req", context=ctx, method="POST")
         return req, ct
@@ -246,7 +252,7 @@ class HttpDispatchWorld(World):
 
     def methods_get(self, S: Any, m: Any, name: Any, default: Any = None) -> Any:
         """The method table, consulted with the URL's method name: unknown / a unary method / a stream method."""
-        if self.info is not None:
+        if self.info is not None or self.knobs.get("method_kind") == "unknown":
             return self.info  # later lookups in the same request see the same table
         kind = self.knob("method_kind", ["unknown", "unary", "stream"])
         if kind == "unknown":
@@ -293,13 +299,13 @@ class HttpDispatchWorld(World):
             if k == "VersionError":
                 raise_(VersionError, "unsupported request version")
             if k == "external_fetch_fails":
-                self.pre_dispatch_server_failure = True
+                self.untabled_failure = True
                 raise_(UserError, "external location could not be fetched")
             set_ctxvar(S, _common._current_request_param_schema, self.request_schema)
             S.event("param_schema_set", self.request_schema)
             self.ipc_method = S.str("ipc_method")
             self.name_mismatch = Not(eq(self.ipc_method, self.method))
-            self.kwargs: dict[str, Any] = {}
+            self.kwargs: dict[str, Any] = {"a": S.opaque("param_a", "PyVal?")}
             return (self.ipc_method, self.kwargs)
 
         H["_read_request"] = read_request
@@ -317,7 +323,7 @@ class HttpDispatchWorld(World):
             """Contract of _validate_call_signature (C06.O1): returns iff the request schema equals the declared one and
             the keyword set fits; rejects with TypeError only.  Precondition (the hole named in C06.O1): the request
             parameter schema recorded by the read path is in the context variable."""
-            S.oblige("O5.request_param_schema_is_set_by_the_read_path_before_signature_validation", get_ctxvar(S, _common._current_request_param_schema) is self.request_schema, kind="pre")
+            S.oblige("pre.request_param_schema_is_set_by_the_read_path_before_signature_validation", get_ctxvar(S, _common._current_request_param_schema) is self.request_schema, kind="pre")
             ok = self.knob("signature_ok", [True, False])
             S.event("signature_validated", name, kwargs, param_types, param_defaults, params_schema, ok)
             if not ok:
@@ -437,7 +443,7 @@ class HttpDispatchWorld(World):
             S.oblige("O2.dispatched_only_without_request_defects", not self.defects, kind="trace", witness=witness)
             S.oblige("O2.dispatched_call_is_200", status == "200", kind="post", witness=f"status={status}")
             S.oblige("O2.error_marker_iff_the_call_failed", marker == self.failed, kind="post", witness=f"failed={self.failed} marker={marker}")
-        elif self.pre_dispatch_server_failure and not self.defects:
+        elif self.untabled_failure and not self.defects:
             # not in the table (storage / sealing failure before the method ran): must not be a 5xx, and a 200 must be marked
             S.oblige("O2.server_side_failure_before_dispatch_is_not_a_success", status in ("400",) or (status == "200" and marker), kind="post", witness=f"status={status} marker={marker}")
         elif status in allowed:
@@ -504,3 +510,864 @@ def drive_unary(S: Any, judge: bool = True) -> HttpDispatchWorld:
     if judge:
         W.judge(out, resp, "unary")
     return W
+
+
+# =============================================================================================================
+# stream routes: shared pieces
+# =============================================================================================================
+
+OUT_SCHEMA = "output-schema"
+
+
+def http_error_400(S: Any, text: str) -> None:
+    """Raise what the token helpers raise: the real _RpcHttpError (its real __init__ runs) with status 400."""
+    e = S.interp.models.construct(S.interp, _RpcHttpError, [SExc(RuntimeError, (text,))], {"status_code": HTTPStatus.BAD_REQUEST})
+    raise PyRaise(e)
+
+
+def install_stream_world(W: HttpDispatchWorld, app: Any) -> None:
+    """Handlers shared by the init and exchange routes."""
+    S, H = W.S, W.S.handlers
+    from vgi_rpc.rpc import _EMPTY_SCHEMA, AnnotatedBatch, OutputCollector
+
+    W.EMPTY = _EMPTY_SCHEMA
+    W.out_schema = SObj(None, kind="Schema", tag=OUT_SCHEMA)
+    W.state_info = SObj(None, kind="StateInfo")
+    # _resolve_state_types (run at construction) has an entry for every stream method: assumption, see ASSUMPTIONS
+    H["StateTypes.get"] = lambda S, t, name, default=None: W.state_info
+    H["CallCache.put"] = lambda S, c, *a, **k: S.event("cache_put")
+    H["Schema.__eq__"] = lambda S, a, b: a is b
+    H["empty_batch"] = lambda S, schema: SObj(None, kind="Batch", tag="empty")
+    H["_record_input"] = lambda S, *a, **k: None
+    H["_record_output"] = lambda S, *a, **k: None
+    H["strip_keys"] = lambda S, cm, *keys: cm
+    H[AnnotatedBatch] = lambda S, batch=None, custom_metadata=None: SObj(None, kind="AB", batch=batch, custom_metadata=custom_metadata)
+
+    def write_stream_header(S: Any, dest: Any, header: Any, external_config: Any = None, sink: Any = None, method_name: str = "") -> None:
+        S.event("header_stream", dest)  # a complete IPC stream (schema + 1-row batch + EOS) written by an IPC writer
+
+    H["_write_stream_header"] = write_stream_header
+    from vgi_rpc.http.server._state_token import _ResolvedCall
+
+    H[_ResolvedCall] = lambda S, cs, o, i, sid: SObj(None, kind="ResolvedCall", call_state=cs, output_schema=o, input_schema=i, stream_id=sid)
+
+    def mint_cursor(S: Any, state: Any, state_info: Any, call_id: Any, key: Any, auth: Any) -> Any:
+        """Serialises the service's state object and seals it: returns (token, plaintext) or raises (unserialisable state)."""
+        if W.knob("mint_cursor", ["ok", "fails"]) == "fails":
+            W.failed = True
+            raise_(UserError, "state does not serialise")
+        return (S.opaque("cursor_token", "Token"), S.opaque("cursor_plain", "Token"))
+
+    H["_mint_cursor_token"] = mint_cursor
+
+    def producer_turn(S: Any, app_: Any, **kw: Any) -> Any:
+        """Contract of _run_http_producer_turn (C11.O3-O5 / C16.O5): runs state.process >= 1 times and returns a reader
+        over a body written by one IPC writer; when the turn failed (process raised, cap overshoot) the body ends
+        with an error batch and _current_response_status is flipped to 500; it raises nothing for user-code causes."""
+        W.dispatched = True
+        S.event("impl_process", "producer")
+        body = SObj(None, kind="Buf")
+        S.event("stream_open", body, kw.get("schema"))
+        if W.knob("producer_turn", ["ok", "fails"]) == "fails":
+            W.failed = True
+            S.event("producer_error", body)
+            set_ctxvar(S, rsp._current_response_status, HTTPStatus.INTERNAL_SERVER_ERROR)
+        S.event("stream_close", body)
+        return SObj(None, kind="Reader", blob=SObj(None, kind="Blob", src=body))
+
+    H["_run_http_producer_turn"] = producer_turn
+
+    # ---- exchange turn callees ----
+    def resolve_external(S: Any, batch: Any, cm: Any, config: Any, **kw: Any) -> Any:
+        if W.knob("resolve_input", ["ok", "fails"]) == "fails":
+            W.untabled_failure = True
+            raise_(UserError, "external input could not be fetched")
+        return (batch, cm)
+
+    def coerce(S: Any, batch: Any, schema: Any) -> Any:
+        if W.knob("coerce_input", ["ok", "TypeError"]) == "TypeError":
+            W.untabled_failure = True
+            raise_(TypeError, "input batch does not fit the declared input schema")
+        return batch
+
+    H["resolve_external_location"] = resolve_external
+    H["_coerce_input_batch"] = coerce
+
+    def collector(S: Any, schema: Any, **kw: Any) -> Any:
+        o = SObj(None, kind="Out", emit_client_log_message=SObj(None, kind="EmitFn"))
+        return o
+
+    H[OutputCollector] = collector
+    W.lazy("Out", "finished", "collector_finished", lambda v: v, [False, True])
+
+    def validate(S: Any, o: Any) -> None:
+        if W.knob("collector_validate", ["ok", "fails"]) == "fails":
+            W.failed = True
+            raise_(RuntimeError, "process() emitted no data batch")
+
+    H["Out.validate"] = validate
+    H["Out.merge_data_metadata"] = lambda S, o, md: None
+
+    def process(S: Any, st: Any, ab: Any, out: Any, ctx: Any) -> None:
+        W.dispatched = True
+        S.event("impl_process", "exchange")
+        W.untabled_failure = False
+        k = W.knob("process_outcome", ["returns", "raises_UserError", "raises_TypeError", "raises_ArrowInvalid"])
+        if k != "returns":
+            W.failed = True
+            raise_({"raises_UserError": UserError, "raises_TypeError": TypeError, "raises_ArrowInvalid": pa.ArrowInvalid}[k], "raised by process()")
+
+    H["State.process"] = process
+
+    def on_cancel(S: Any, st: Any, ctx: Any) -> None:
+        W.dispatched = True
+        S.event("impl_cancel")
+        if W.knob("on_cancel", ["returns", "raises"]) == "raises":
+            raise_(UserError, "on_cancel failed")  # swallowed by design: the cancel is still acknowledged
+
+    H["State.on_cancel"] = on_cancel
+
+    def flush(S: Any, writer: Any, out: Any, config: Any = None, **kw: Any) -> Any:
+        if W.knob("flush", ["ok", "fails"]) == "fails":
+            W.failed = True
+            raise_(UserError, "upload failed")
+        S.event("write_batch", writer.fields["sink"], "collector", None)
+        return 0
+
+    H["_flush_collector"] = flush
+
+    def budgets(S: Any, **kw: Any) -> None:
+        if W.knob("budget", ["within", "overshoot"]) == "overshoot":
+            W.failed = True
+            raise_(RuntimeError, "HTTP body exceeds max_response_bytes")
+
+    H["_enforce_response_budgets"] = budgets
+
+
+# =============================================================================================================
+# init route
+# =============================================================================================================
+
+
+def drive_init(S: Any, judge: bool = True) -> HttpDispatchWorld:
+    """POST {prefix}/{method}/init: the real _StreamInitResource.on_post down to the stream method and the first turn."""
+    W = HttpDispatchWorld(S)
+    W.route = "init"
+    server = W.server("m")
+    app = W.app(server)
+    W.install_validation()
+    install_stream_world(W, app)
+    H = S.handlers
+
+    def result(S: Any) -> Any:
+        producer = W.knob("stream_kind", ["exchange", "producer"]) == "producer"
+        in_schema = W.EMPTY if producer else SObj(None, kind="Schema", tag="input-schema")
+        return SObj(None, kind="StreamResult", call_state=None, output_schema=W.out_schema, input_schema=in_schema, state=SObj(None, kind="State"), header=SObj(None, kind="Header"))
+
+    W.user_method(result)
+    # sealing the call token: serialises the service's own call state (assumed to succeed, see ASSUMPTIONS)
+    H["_mint_call_token"] = lambda S, *a: (S.opaque("call_token", "Token"), S.opaque("call_id", "Token"), S.opaque("call_plain", "Token"))
+    me = SObj(res._StreamInitResource, _app=app)
+    req, _ = W.request()
+    resp = W.response()
+    out = S.outcome(res._StreamInitResource.on_post, me, req, resp, "m")
+    W.out, W.resp, W.app_obj = out, resp, app
+    if judge:
+        W.judge(out, resp, "init")
+    return W
+
+
+# =============================================================================================================
+# exchange route
+# =============================================================================================================
+
+READER_OUTCOMES = ["batch", "ArrowInvalid", "StopIteration"]
+
+
+def drive_exchange(S: Any, judge: bool = True) -> HttpDispatchWorld:
+    """POST {prefix}/{method}/exchange: the real _ExchangeResource.on_post down to state.process / on_cancel."""
+    import secrets
+
+    from vgi_rpc.utils import ValidatedReader
+
+    W = HttpDispatchWorld(S)
+    W.route = "exchange"
+    server = W.server("m")
+    app = W.app(server)
+    install_stream_world(W, app)
+    H = S.handlers
+
+    # ---- the request body: pyarrow's reader may fail at ANY read -------------------------------------------
+    def open_stream(S: Any, stream: Any) -> Any:
+        if W.knob("open_stream", ["ok", "ArrowInvalid"]) == "ArrowInvalid":
+            W.defect("malformed_ipc")
+            raise_(pa.ArrowInvalid, "not an IPC stream")
+        return SObj(None, kind="RawReader")
+
+    H[ipc.open_stream] = open_stream
+    H[ValidatedReader] = lambda S, raw, validation=None: SObj(None, kind="VReader")
+    md_cache: dict[Any, Any] = {}
+
+    def md_get(S: Any, m: Any, key: Any, default: Any = None) -> Any:
+        """Arbitrary request metadata: each framework key is absent or an arbitrary byte string."""
+        if key not in md_cache:
+            name = {STATE_KEY: "cursor_token", CALL_STATE_KEY: "call_token", CANCEL_KEY: "cancel_flag"}[key]
+            md_cache[key] = S.opaque("client_" + name, "Token") if W.knob(name + "_present", [True, False]) else None
+            if key == STATE_KEY and md_cache[key] is None:
+                W.defect("bad_token")  # no cursor token in the request
+        return md_cache[key]
+
+    H["ExMeta.get"] = md_get
+
+    def read_next(S: Any, r: Any) -> Any:
+        k = W.knob("read_batch", READER_OUTCOMES)
+        if k != "batch":
+            W.defect("malformed_ipc")
+            raise_(pa.ArrowInvalid if k == "ArrowInvalid" else StopIteration, *(("corrupt batch",) if k == "ArrowInvalid" else ()))
+        md = SObj(None, kind="ExMeta") if W.knob("batch_metadata_present", [True, False]) else None
+        if md is None:
+            W.defect("bad_token")  # no metadata at all: no cursor token
+        return (SObj(None, kind="Batch", tag="input"), md)
+
+    H["VReader.read_next_batch_with_custom_metadata"] = read_next
+
+    # ---- token helpers: by contract (C12: they raise nothing but _RpcHttpError 400) ----------------------------
+    H["_compute_aad"] = lambda S, auth: b"aad"
+    H["_compute_call_aad"] = lambda S, auth: b"call-aad"
+
+    def open_cursor(S: Any, token: Any, key: Any, aad: Any, ttl: Any = 0) -> Any:
+        if W.knob("cursor_token", ["opens", "rejected"]) == "rejected":
+            W.defect("bad_token")
+            http_error_400(S, "State token signature verification failed")
+        return (S.opaque("cursor_plain", "Token"), S.opaque("call_id", "Token"))
+
+    def open_call(S: Any, token: Any, key: Any, aad: Any, ttl: Any = 0) -> Any:
+        if W.knob("call_token", ["opens", "rejected"]) == "rejected":
+            W.defect("bad_token")
+            http_error_400(S, "Call token signature verification failed")
+        has_state = W.knob("call_token_has_call_state", [False, True])
+        return (b"x" if has_state else b"", "T", S.opaque("out_schema_bytes", "Token"), S.opaque("in_schema_bytes", "Token"), S.opaque("token_call_id", "Token"), "stream-1")
+
+    H["_open_cursor_token"] = open_cursor
+    H["_open_call_token"] = open_call
+
+    def stream_schemas() -> tuple[Any, Any]:
+        producer = W.knob("stream_kind", ["exchange", "producer"]) == "producer"
+        return W.out_schema, (W.EMPTY if producer else SObj(None, kind="Schema", tag="input-schema"))
+
+    def cache_get(S: Any, c: Any, call_id: Any, auth: Any, now: Any) -> Any:
+        if W.knob("call_cache", ["hit", "miss"]) == "miss":
+            if md_cache.get(CALL_STATE_KEY) is None:
+                W.defect("bad_token")  # the call is not cached on this worker and the client did not echo its call token
+            return None
+        o, i = stream_schemas()
+        return SObj(None, kind="ResolvedCall", call_state=None, output_schema=o, input_schema=i, stream_id="stream-1")
+
+    H["CallCache.get"] = cache_get
+
+    def compare_digest(S: Any, a: Any, b: Any) -> Any:
+        if W.knob("call_ids_match", [True, False]):
+            return True
+        W.defect("bad_token")
+        return False
+
+    H[secrets.compare_digest] = compare_digest
+    H[pa.py_buffer] = lambda S, b: b
+    n_schema = {"n": 0}
+
+    def read_schema(S: Any, buf: Any) -> Any:
+        n_schema["n"] += 1
+        if W.knob(f"schema_{n_schema['n']}_in_token", ["reads", "corrupt"]) == "corrupt":
+            W.defect("bad_token")
+            raise_(pa.ArrowInvalid, "not a schema message")
+        if n_schema["n"] == 1:
+            return W.out_schema
+        return stream_schemas()[1]
+
+    H[pa.ipc.read_schema] = read_schema
+    def declared(S: Any, state_info: Any) -> Any:
+        return {"T": SObj(None, kind="CallStateCls")} if W.knob("call_state_type_declared", [True, False]) else (W.defect("bad_token"), {})[1]
+
+    H["_declared_call_state_types"] = declared
+
+    def fails_or(name: str, value: Any) -> Any:
+        def h(S: Any, *a: Any, **k: Any) -> Any:
+            if W.knob(name, ["ok", "fails"]) == "fails":
+                W.defect("bad_token")
+                raise_(UserError, name)
+            return value() if callable(value) else value
+
+        return h
+
+    state = SObj(None, kind="State")
+    H["CallStateCls.deserialize_from_bytes"] = fails_or("call_state_deserialises", lambda: S.opaque("call_state", "PyVal?"))
+    H["_resolve_state_cls"] = fails_or("state_class_resolves", lambda: (SObj(None, kind="StateCls"), S.opaque("raw_state", "Token")))
+    H["_deserialize_state_bytes"] = fails_or("state_deserialises", state)
+    H["State.bind_call_state"] = fails_or("bind_call_state", None)
+    H["State.rehydrate"] = fails_or("rehydrate", None)
+
+    me = SObj(res._ExchangeResource, _app=app)
+    req, _ = W.request()
+    resp = W.response()
+    out = S.outcome(res._ExchangeResource.on_post, me, req, resp, "m")
+    W.out, W.resp, W.app_obj = out, resp, app
+    W.md_cache = md_cache
+    if judge:
+        # a request without a cursor token is a token defect (decided by the code consulting the metadata)
+        W.judge(out, resp, "exchange")
+    return W
+
+
+# =============================================================================================================
+# upload-url route
+# =============================================================================================================
+
+
+def drive_upload(S: Any, judge: bool = True) -> HttpDispatchWorld:
+    """POST {prefix}/__upload_url__/init: the real _UploadUrlResource.on_post."""
+    from vgi_rpc.http._common import _UPLOAD_URL_METHOD
+
+    W = HttpDispatchWorld(S)
+    W.route = "upload"
+    server = W.server(_UPLOAD_URL_METHOD)
+    H = S.handlers
+
+    def generate(S: Any, p: Any, schema: Any) -> Any:
+        W.dispatched = True
+        S.event("impl_invoked", None, {})
+        if W.knob("provider_outcome", ["returns", "raises"]) == "raises":
+            W.failed = True
+            raise_(UserError, "storage backend unavailable")
+        return SObj(None, kind="Url", upload_url="u", download_url="d", expires_at=S.opaque("expires", "PyVal?"))
+
+    H["Provider.generate_upload_url"] = generate
+
+    def from_pydict(S: Any, d: Any, schema: Any = None) -> Any:
+        if W.knob("result_batch", ["builds", "ArrowInvalid"]) == "ArrowInvalid":
+            W.failed = True
+            raise_(pa.ArrowInvalid, "provider returned values that do not fit the schema")
+        return SObj(None, kind="Batch", tag="urls")
+
+    H[pa.RecordBatch.from_pydict] = from_pydict
+    app = W.app(server, _upload_url_provider=SObj(None, kind="Provider"))
+    W.install_validation()
+    me = SObj(res._UploadUrlResource, _app=app)
+    req, _ = W.request()
+    resp = W.response()
+    out = S.outcome(res._UploadUrlResource.on_post, me, req, resp)
+    W.out, W.resp, W.app_obj = out, resp, app
+    if judge:
+        W.judge(out, resp, "upload")
+    return W
+
+
+# =============================================================================================================
+# request-side middleware rejections + the app's error serializer
+# =============================================================================================================
+
+MW_ARMS = ["content_length_over_cap", "chunked_body_over_cap", "unknown_coding", "disabled_coding", "decoded_size_over_cap", "undecodable_body", "accepted"]
+MW_TABLE = {"content_length_over_cap": 413, "chunked_body_over_cap": 413, "unknown_coding": 415, "disabled_coding": 415, "decoded_size_over_cap": 413, "undecodable_body": 400}
+
+
+def drive_middleware_rejection(S: Any) -> HttpDispatchWorld:
+    """The request-side arms of the real _MaxRequestBytesMiddleware / _CompressionMiddleware; the HTTPError they raise is
+    answered the way falcon does it: status of the error, body from the app's real error serializer."""
+    import vgi_rpc._codec as codec
+    import vgi_rpc.http.server._errors as errors
+    import vgi_rpc.http.server._middleware as mw
+
+    W = HttpDispatchWorld(S)
+    W.route = "middleware"
+    H = S.handlers
+    arm = W.knob("arm", MW_ARMS)
+    for cls in (falcon.HTTPContentTooLarge, falcon.HTTPUnsupportedMediaType, falcon.HTTPBadRequest):
+        H[cls] = (lambda c: lambda S, *a, **kw: SExc(c, a, attrs=kw))(cls)
+    H[falcon.HTTPError.to_json] = lambda S, *a, **k: b'{"title": "..."}'
+    cap = W.nonneg("max_request_bytes")
+    ctx = SObj(None, kind="ReqContext")
+    ctx.closed = True
+    coding = {"unknown_coding": "br", "disabled_coding": "zstd", "decoded_size_over_cap": "gzip", "undecodable_body": "gzip"}.get(arm)
+    headers = {"Content-Encoding": coding}
+    H["MReq.get_header"] = lambda S, r, name, default=None, **k: headers.get(name, default)
+    wire = S.bytes("wire_body") if arm == "chunked_body_over_cap" else None
+    H["BodyStream.read"] = lambda S, st, n=None: wire if wire is not None else S.opaque("wire_body", "Bytes?")
+    cl = None if arm == "chunked_body_over_cap" else S.int("content_length")
+    req = SObj(None, kind="MReq", path="/m", content_length=cl, bounded_stream=SObj(None, kind="BodyStream"), context=ctx)
+    resp = W.response()
+    if arm in ("content_length_over_cap", "chunked_body_over_cap"):
+        me = SObj(mw._MaxRequestBytesMiddleware, _max_bytes=cap, _exempt_prefixes=("/health",))
+        S.inline.add("_MaxRequestBytesMiddleware._raise_too_large")
+        if arm == "content_length_over_cap":
+            S.assume(cl > cap)
+        else:
+            from pyvc.values import SInt as _SInt
+            import z3 as _z3
+
+            S.assume(_SInt(_z3.Length(wire.t)) > cap)
+        out = S.outcome(mw._MaxRequestBytesMiddleware.process_request, me, req, resp)
+    else:
+        me = SObj(mw._CompressionMiddleware, _decode=frozenset({codec.Encoding.GZIP}), _max_decompressed_bytes=cap, _levels={}, _level=1)
+        H["_CompressionMiddleware._pick_response_encoding"] = lambda S, m, r: (None, False)
+
+        def decompress(S: Any, enc: Any, data: Any, max_output_size: Any = None) -> Any:
+            """Contract of _codec.decompress (C18): the decoded bytes, DecompressionLimitExceeded, or the codec library's error."""
+            if arm == "decoded_size_over_cap":
+                raise_(codec.DecompressionLimitExceeded, "decoded size exceeds the cap")
+            if arm == "undecodable_body":
+                raise_(codec.DecompressionError, "not a gzip stream")
+            return S.opaque("decoded_body", "Bytes?")
+
+        H[codec.decompress] = decompress
+        if arm == "accepted":
+            headers["Content-Encoding"] = "gzip"
+        out = S.outcome(mw._CompressionMiddleware.process_request, me, req, resp)
+    W.out, W.resp, W.arm = out, resp, arm
+    if out.raised and exc_is(out.exc, falcon.HTTPError):
+        # falcon (trusted): the error's status becomes the response status, the app's error serializer writes the body
+        resp.fields["status"] = str(exc_class(out.exc)().status_code)
+        serializer = errors._make_error_serializer("")
+        S.call(serializer, req, resp, out.exc)
+    return W
+
+
+# =============================================================================================================
+# native harness: a real RpcServer behind the real make_wsgi_app + falcon test client
+# =============================================================================================================
+
+from dataclasses import dataclass as _dataclass
+from typing import Protocol as _Protocol
+
+from vgi_rpc.rpc import AnnotatedBatch as _AB
+from vgi_rpc.rpc import CallContext as _CC
+from vgi_rpc.rpc import ExchangeState as _ExchangeState
+from vgi_rpc.rpc import OutputCollector as _OC
+from vgi_rpc.rpc import ProducerState as _ProducerState
+from vgi_rpc.rpc import Stream as _Stream
+
+_BEHAVIOUR: dict[str, Any] = {}
+
+
+class NativeUserError(Exception):
+    pass
+
+
+def _behave(key: str) -> None:
+    k = _BEHAVIOUR.get(key, "returns")
+    if k in ("raises_UserError", "raises"):
+        raise NativeUserError("raised by the method body")
+    if k == "raises_TypeError":
+        raise TypeError("raised by the method body")
+    if k == "raises_ArrowInvalid":
+        raise pa.ArrowInvalid("raised by the method body")
+    if k == "raises_StopIteration":
+        raise StopIteration
+
+
+@_dataclass
+class NExchangeState(_ExchangeState):
+    factor: float
+
+    def exchange(self, input: _AB, out: _OC, ctx: _CC) -> None:
+        _behave("process_outcome")
+        out.emit_pydict({"v": [1.0]})
+
+    def on_cancel(self, ctx: _CC) -> None:
+        _behave("on_cancel")
+
+
+@_dataclass
+class NProducerState(_ProducerState):
+    factor: float
+    n: int = 0
+
+    def produce(self, out: _OC, ctx: _CC) -> None:
+        if _BEHAVIOUR.get("producer_turn") == "fails":
+            raise NativeUserError("raised by produce()")
+        self.n += 1
+        out.emit_pydict({"v": [float(self.n)]})
+
+    def on_cancel(self, ctx: _CC) -> None:
+        _behave("on_cancel")
+
+
+_V = pa.schema([pa.field("v", pa.float64())])
+
+
+class NUnary(_Protocol):
+    def m(self, a: float) -> float: ...
+
+
+class NUnaryVersioned(_Protocol):
+    protocol_version = "1.2.0"
+
+    def m(self, a: float) -> float: ...
+
+
+class NExchange(_Protocol):
+    def m(self, a: float) -> _Stream[_ExchangeState]: ...
+
+
+class NExchangeVersioned(_Protocol):
+    protocol_version = "1.2.0"
+
+    def m(self, a: float) -> _Stream[_ExchangeState]: ...
+
+
+class NProducer(_Protocol):
+    def m(self, a: float) -> _Stream[_ProducerState]: ...
+
+
+class NUnaryImpl:
+    def m(self, a: float) -> Any:
+        _behave("impl_outcome")
+        if _BEHAVIOUR.get("validate_result") == "TypeError":
+            return None
+        if _BEHAVIOUR.get("build_result") == "ArrowInvalid":
+            return "not a float"
+        return a + 1.0
+
+
+class NExchangeImpl:
+    def m(self, a: float) -> _Stream[NExchangeState]:
+        _behave("impl_outcome")
+        return _Stream(output_schema=_V, state=NExchangeState(factor=a), input_schema=_V)
+
+
+class NProducerImpl:
+    def m(self, a: float) -> _Stream[NProducerState]:
+        _behave("impl_outcome")
+        return _Stream(output_schema=_V, state=NProducerState(factor=a))
+
+
+class _NProvider:
+    def generate_upload_url(self, schema: Any) -> Any:
+        from vgi_rpc.external import UploadUrl
+        import datetime
+
+        if _BEHAVIOUR.get("provider_outcome") == "raises":
+            raise NativeUserError("storage backend unavailable")
+        return UploadUrl(upload_url="https://u", download_url="https://d", expires_at=datetime.datetime.now(datetime.UTC))
+
+
+def _s(v: Any, default: str = "") -> str:
+    return v if isinstance(v, str) else default
+
+
+def _request_body(method_in_md: str | None, *, version: bytes | None, columns: dict[str, Any] | None, schema: Any = None, extra_md: dict[bytes, bytes] | None = None) -> bytes:
+    from vgi_rpc.metadata import REQUEST_VERSION_KEY, RPC_METHOD_KEY
+
+    md: dict[bytes, bytes] = dict(extra_md or {})
+    if method_in_md is not None:
+        md[RPC_METHOD_KEY] = method_in_md.encode()
+    if version is not None:
+        md[REQUEST_VERSION_KEY] = version
+    schema = schema or pa.schema([pa.field("a", pa.float64(), nullable=False)])
+    batch = pa.RecordBatch.from_pydict(columns if columns is not None else {"a": [1.0]}, schema=schema)
+    buf = io.BytesIO()
+    with ipc.new_stream(buf, schema) as w:
+        if md:
+            w.write_batch(batch, custom_metadata=pa.KeyValueMetadata(md))
+        else:
+            w.write_batch(batch)
+    return buf.getvalue()
+
+
+def _schema_only(schema: Any = None) -> bytes:
+    buf = io.BytesIO()
+    with ipc.new_stream(buf, schema or pa.schema([])):
+        pass
+    return buf.getvalue()
+
+
+def _init_request_body(inputs: dict[str, Any], method: str, declares_version: bool) -> tuple[bytes | None, list[str]]:
+    """The unary / init request body for the model's choices; returns (body, defects built into it)."""
+    from vgi_rpc.metadata import PROTOCOL_VERSION_KEY as PVK
+    from vgi_rpc.metadata import REQUEST_VERSION
+
+    defects: list[str] = []
+    ro = inputs.get("read_outcome", "returns")
+    if ro == "ArrowInvalid":
+        return b"this is not an Arrow IPC stream", ["malformed_ipc"]
+    if ro == "StopIteration":
+        return _schema_only(), ["malformed_ipc"]
+    if ro == "RpcError":
+        return _request_body(None, version=REQUEST_VERSION, columns=None), ["bad_metadata"]
+    if ro == "VersionError":
+        return _request_body(method, version=b"999", columns=None), ["bad_metadata"]
+    if ro == "external_fetch_fails":
+        return None, []
+    name = _s(inputs.get("ipc_method"), method) if "ipc_method" in inputs else method
+    if name != method:
+        defects.append("bad_metadata")
+    extra: dict[bytes, bytes] = {}
+    if declares_version:
+        if inputs.get("protocol_version_ok", True):
+            extra[PVK] = b"1.2.0"
+        else:
+            extra[PVK] = b"9.9.9"
+            defects.append("version_rejected")
+    schema, cols = None, None
+    if inputs.get("deserialize_outcome", "ok") != "ok" or not inputs.get("signature_ok", True):
+        schema = pa.schema([pa.field("wrong_name", pa.float64(), nullable=False)])
+        cols = {"wrong_name": [1.0]}
+        defects.append("bad_params")
+    elif not inputs.get("params_ok", True):
+        schema = pa.schema([pa.field("a", pa.float64(), nullable=True)])
+        cols = {"a": [None]}
+        defects.append("bad_params")
+    return _request_body(name, version=REQUEST_VERSION, columns=cols, schema=schema, extra_md=extra), defects
+
+
+def native_probe(route: str, inputs: dict[str, Any]) -> tuple[bool, str]:
+    """Send the request described by the model's choices to a real app; judge C15.O1-O3 on the real response."""
+    import warnings
+
+    from vgi_rpc.http import make_sync_client
+    from vgi_rpc.rpc import RpcServer
+
+    _BEHAVIOUR.clear()
+    _BEHAVIOUR.update({k: v for k, v in inputs.items() if isinstance(v, str)})
+    kind = inputs.get("method_kind", "unary" if route in ("unary",) else "stream")
+    declares = bool(inputs.get("server_declares_protocol_version", False))
+    producer = inputs.get("stream_kind") == "producer"
+    if route == "upload":
+        proto, impl = NUnary, NUnaryImpl()
+    elif kind == "stream":
+        proto, impl = (NProducer, NProducerImpl()) if producer else ((NExchangeVersioned if declares else NExchange), NExchangeImpl())
+    else:
+        proto, impl = (NUnaryVersioned if declares else NUnary), NUnaryImpl()
+    kw: dict[str, Any] = {}
+    if inputs.get("budget") == "overshoot":
+        kw["max_response_bytes"] = 1
+    if inputs.get("call_cache") == "miss":
+        kw["call_state_cache_entries"] = 0
+    if route == "upload":
+        kw["upload_url_provider"] = _NProvider()
+    with warnings.catch_warnings():
+        warnings.simplefilter("ignore")
+        client = make_sync_client(RpcServer(proto, impl), token_key=b"k" * 32, **kw)
+    try:
+        return _native_probe(client, route, inputs, kind, declares, producer)
+    finally:
+        client.close()
+        _BEHAVIOUR.clear()
+
+
+def _native_probe(client: Any, route: str, inputs: dict[str, Any], kind: str, declares: bool, producer: bool) -> tuple[bool, str]:
+    from vgi_rpc.http._common import _UPLOAD_URL_METHOD
+    from vgi_rpc.metadata import REQUEST_VERSION
+
+    url_method = "nope" if kind == "unknown" else "m"
+    defects: list[str] = []
+    expect_failed = False
+    headers: dict[str, str] = {}
+    if inputs.get("content_type_present", True):
+        ct = _s(inputs.get("content_type"), ARROW) if "content_type" in inputs else ARROW
+        try:
+            ct.encode("latin-1")
+        except UnicodeEncodeError:
+            ct = "text/plain"
+        if ct.strip() != ct or any(ord(c) < 32 for c in ct):
+            ct = "text/plain" if ct != ARROW else ct
+        headers["Content-Type"] = ct
+        if ct != ARROW:
+            defects.append("wrong_content_type")
+    else:
+        defects.append("wrong_content_type")
+    if kind == "unknown":
+        defects.append("unknown_method")
+    elif route != "upload" and (kind == "stream") != (route != "unary"):
+        defects.append("route_mismatch")
+    path = {"unary": f"/{url_method}", "init": f"/{url_method}/init", "exchange": f"/{url_method}/exchange", "upload": f"/{_UPLOAD_URL_METHOD}/init"}[route]
+    if route in ("unary", "init", "upload"):
+        if route == "upload":
+            m = _UPLOAD_URL_METHOD
+            ro = inputs.get("read_outcome", "returns")
+            if ro == "returns":
+                name = _s(inputs.get("ipc_method"), m) if "ipc_method" in inputs else m
+                body = _request_body(name, version=REQUEST_VERSION, columns={"count": [1]}, schema=pa.schema([pa.field("count", pa.int64())]))
+                if name != m:
+                    defects.append("bad_metadata")
+            else:
+                body, d = _init_request_body(inputs, m, False)
+                defects += d
+            expect_failed = inputs.get("provider_outcome") == "raises"
+        else:
+            body, d = _init_request_body(inputs, "m", declares)
+            defects += d
+            expect_failed = (
+                inputs.get("impl_outcome", "returns") != "returns"
+                or inputs.get("validate_result") == "TypeError"
+                or inputs.get("build_result") == "ArrowInvalid"
+                or inputs.get("budget") == "overshoot"
+                or inputs.get("producer_turn") == "fails"
+            )
+        if body is None:
+            return False, "this path (external-location fetch failure) needs a storage backend: not replayed natively"
+    else:
+        body, d, expect_failed, why = _exchange_body(client, inputs, producer, headers)
+        if body is None:
+            return False, why
+        defects += d
+    resp = client.post("http://test" + path, content=body, headers=headers)
+    status = resp.status_code
+    hdrs = {k.lower(): v for k, v in dict(resp.headers).items()}
+    marker = hdrs.get(RPC_ERROR_HEADER.lower()) == "true"
+    ctype = hdrs.get("content-type", "")
+    decodable = True
+    try:
+        r = ipc.open_stream(io.BytesIO(resp.content))
+        r.read_all()
+    except Exception:
+        decodable = False
+    problems = []
+    if status >= 500:
+        problems.append(f"status {status}: a client-controlled request produced a 5xx")
+    allowed = {int(TABLE[x]) for x in defects}
+    if defects:
+        if status not in allowed and status < 500:
+            problems.append(f"status {status} is not the table's status for any defect of the request ({sorted(allowed)})")
+        if status == 200:
+            problems.append("a defective request was dispatched / answered 200")
+    else:
+        if status != 200:
+            problems.append(f"a request without defects was answered {status}")
+        elif marker != expect_failed:
+            problems.append(f"error marker={marker} but the call {'failed' if expect_failed else 'succeeded'}")
+    if status not in (401, 415) and status < 500 and (ctype != ARROW or not decodable):
+        problems.append(f"response {status} has content-type {ctype!r}, Arrow-decodable={decodable}")
+    detail = f"POST {path} content-type={headers.get('Content-Type')!r} body={len(body)}B defects={defects or 'none'} -> status={status} marker={marker} content-type={ctype!r} arrow-decodable={decodable}"
+    return bool(problems), detail + ("; " + "; ".join(problems) if problems else "")
+
+
+def _exchange_body(client: Any, inputs: dict[str, Any], producer: bool, headers: dict[str, str]) -> tuple[bytes | None, list[str], bool, str]:
+    """A real /init first (valid), then the /exchange body for the model's choices."""
+    from vgi_rpc.metadata import REQUEST_VERSION
+
+    saved = dict(_BEHAVIOUR)
+    _BEHAVIOUR.clear()
+    init = client.post("http://test/m/init", content=_request_body("m", version=REQUEST_VERSION, columns=None), headers={"Content-Type": ARROW})
+    _BEHAVIOUR.update(saved)
+    tokens: dict[bytes, bytes] = {}
+    if init.status_code == 200:
+        rd = ipc.open_stream(io.BytesIO(init.content))
+        try:
+            while True:
+                b, cm = rd.read_next_batch_with_custom_metadata()
+                if cm is not None:
+                    for k in (STATE_KEY, CALL_STATE_KEY):
+                        if cm.get(k) is not None:
+                            tokens[k] = cm.get(k)
+        except StopIteration:
+            pass
+    defects: list[str] = []
+    if inputs.get("open_stream") == "ArrowInvalid":
+        return b"not an IPC stream", ["malformed_ipc"], False, ""
+    if inputs.get("read_batch") == "StopIteration":
+        return _schema_only(_V), ["malformed_ipc"], False, ""
+    if inputs.get("read_batch") == "ArrowInvalid":
+        good = _schema_only(_V)
+        return good[:-8] + b"\xff\xff\xff\xff\x10\x00\x00\x00garbage!", ["malformed_ipc"], False, ""
+    for k in ("schema_1_in_token", "schema_2_in_token", "call_state_deserialises", "state_class_resolves", "state_deserialises", "bind_call_state", "rehydrate", "call_state_type_declared", "resolve_input", "mint_cursor", "flush", "collector_validate"):
+        if inputs.get(k) in ("corrupt", "fails", False):
+            return None, [], False, f"path needs {k}={inputs.get(k)}: not constructible through the public wire, not replayed natively"
+    if STATE_KEY not in tokens:
+        return None, [], False, "no tokens obtained from /init (the stream kind of this path is not replayable)"
+    md: dict[bytes, bytes] = {}
+    if inputs.get("batch_metadata_present", True):
+        if inputs.get("cursor_token_present", True):
+            md[STATE_KEY] = tokens[STATE_KEY] if inputs.get("cursor_token", "opens") == "opens" else tokens[STATE_KEY][:-6] + b"AAAAAA"
+            if inputs.get("cursor_token") == "rejected":
+                defects.append("bad_token")
+        else:
+            defects.append("bad_token")
+        if inputs.get("call_token_present", True) and CALL_STATE_KEY in tokens:
+            md[CALL_STATE_KEY] = tokens[CALL_STATE_KEY] if inputs.get("call_token", "opens") == "opens" else tokens[CALL_STATE_KEY][:-6] + b"AAAAAA"
+            if inputs.get("call_token") == "rejected" and inputs.get("call_cache") == "miss":
+                defects.append("bad_token")
+        elif inputs.get("call_cache") == "miss":
+            defects.append("bad_token")
+        if inputs.get("cancel_flag_present", False):
+            md[CANCEL_KEY] = b"1"
+        if not md:
+            md[b"unrelated"] = b"1"
+    else:
+        defects.append("bad_token")
+    if inputs.get("call_ids_match") is False:
+        return None, [], False, "mismatched call ids need tokens of two streams: covered by C13's replay"
+    schema = pa.schema([]) if producer else _V
+    batch = pa.RecordBatch.from_pydict({} if producer else {"v": [1.0]}, schema=schema)
+    if inputs.get("coerce_input") == "TypeError" and not producer:
+        schema = pa.schema([pa.field("other", pa.int64())])
+        batch = pa.RecordBatch.from_pydict({"other": [1]}, schema=schema)
+    buf = io.BytesIO()
+    with ipc.new_stream(buf, schema) as w:
+        if inputs.get("batch_metadata_present", True):
+            w.write_batch(batch, custom_metadata=pa.KeyValueMetadata(md))
+        else:
+            w.write_batch(batch)
+    cancelled = bool(inputs.get("cancel_flag_present", False))
+    failed = not cancelled and (
+        inputs.get("process_outcome", "returns") != "returns" or inputs.get("producer_turn") == "fails" or inputs.get("budget") == "overshoot" or inputs.get("coerce_input") == "TypeError"
+    )
+    return buf.getvalue(), defects, failed, ""
+
+
+def make_replay(route: str) -> Any:
+    from pyvc.api import ReplayResult
+
+    def replay(inputs: dict[str, Any], ob: Any) -> Any:
+        bad, detail = native_probe(route, inputs)
+        return ReplayResult(bad, detail)
+
+    return replay
+
+
+def replay_middleware(inputs: dict[str, Any], ob: Any) -> Any:
+    import gzip
+    import warnings
+
+    from pyvc.api import ReplayResult
+    from vgi_rpc.http import make_sync_client
+    from vgi_rpc.metadata import REQUEST_VERSION
+    from vgi_rpc.rpc import RpcServer
+
+    arm = inputs.get("arm", "content_length_over_cap")
+    with warnings.catch_warnings():
+        warnings.simplefilter("ignore")
+        client = make_sync_client(RpcServer(NUnary, NUnaryImpl()), token_key=b"k" * 32, max_request_bytes=4096)
+    try:
+        good = _request_body("m", version=REQUEST_VERSION, columns=None)
+        headers = {"Content-Type": ARROW}
+        body = good
+        if arm in ("content_length_over_cap", "chunked_body_over_cap"):
+            body = b"x" * 10000
+        elif arm == "unknown_coding":
+            headers["Content-Encoding"] = "br"
+        elif arm == "disabled_coding":
+            headers["Content-Encoding"] = "deflate"
+        elif arm == "decoded_size_over_cap":
+            headers["Content-Encoding"] = "gzip"
+            body = gzip.compress(b"\x00" * 100000)
+        elif arm == "undecodable_body":
+            headers["Content-Encoding"] = "gzip"
+            body = b"this is not gzip"
+        elif arm == "accepted":
+            headers["Content-Encoding"] = "gzip"
+            body = gzip.compress(good)
+        resp = client.post("http://test/m", content=body, headers=headers)
+    finally:
+        client.close()
+    ctype = {k.lower(): v for k, v in dict(resp.headers).items()}.get("content-type", "")
+    try:
+        ipc.open_stream(io.BytesIO(resp.content)).read_all()
+        decodable = True
+    except Exception:
+        decodable = False
+    want = MW_TABLE.get(arm, 200)
+    problems = []
+    if resp.status_code != want:
+        problems.append(f"status {resp.status_code}, the table says {want}")
+    if resp.status_code not in (401, 415) and (ctype != ARROW or not decodable):
+        problems.append(f"{resp.status_code} response has content-type {ctype!r}, Arrow-decodable={decodable}")
+    return ReplayResult(bool(problems), f"arm={arm}: POST /m {headers} body={len(body)}B -> {resp.status_code} {ctype!r} arrow-decodable={decodable}" + ("; " + "; ".join(problems) if problems else ""))
